@@ -465,6 +465,8 @@ class LibMixin:
         if n == "tuple":
             if not args:
                 return ()
+            if isinstance(args[0], ListV) and args[0].may:
+                return self.sym_call_libclass(c, args, kwargs, run, node)
             return tuple(self.iterate_concrete(args[0], run, node))
         if n == "list":
             return ListV(list(self.iterate_concrete(args[0], run, node)) if args else [], site=self.site(node))
